@@ -28,4 +28,22 @@ PROPS = {
         "nontrivial": ("stake", "submit"),
         "variants": ("default", "miniwasm"),
     },
+    "C08": {
+        "title": "Authorization matrix of the staking contract",
+        "streams": ["matrix", "world"],
+        "facets": {"res"} | ST_ALL,
+        "nontrivial": ("addval", "rmval", "updcfg", "xfer_own", "revoke_own", "resume", "feewd", "breaker", "accept_own", "rewards", "unstaked", "recover", "withdraw"),
+        "variants": ("default",),
+        "level_text": "Theorem C08_authz: for every store (no reachability assumption), env, sender, funds and message, execute = Ok implies the sender is entitled by the table of the property (C08_table spells the table out); C08_withdraw_own_only gives the exact effect of Withdraw. An Err persists nothing (runtime rollback), so this is the property for all states and principals.",
+        "level_note": "Model coq/Staking.v tied to contract.rs/execute.rs by the matrix stream: at states sampled along generated histories every message variant (arguments chosen to succeed for the entitled caller) is executed by 9 principals (admin, former admin, nominee, monitor, both hook accounts, the contract, a user, a fresh address) inside rolled-back transactions; result class and the full store are compared. deps.api.addr_validate and the hook derivation are parameters of the theorem (instantiated by Crypto.v for running).",
+    },
+    "C10": {
+        "title": "Circuit breaker halts all value-moving user operations",
+        "streams": ["matrix", "world"],
+        "facets": {"res"} | ST_ALL | {"msg:oracle"},
+        "nontrivial": ("breaker", "resume", "stake", "unstake", "submit", "withdraw", "rewards", "unstaked"),
+        "variants": ("default",),
+        "level_text": "Theorems for all stores and inputs: instantiate yields a halted store; while halted each of the six value-moving messages returns a typed error (not Ok, not a panic); CircuitBreaker succeeds only for admin/monitor and yields exactly the old store with the flag set and no messages; ResumeContract succeeds only for the admin and yields exactly the old store with the three totals replaced and the flag cleared, emitting only the oracle post.",
+        "level_note": "Tied to the code by the matrix stream: every value-moving call that succeeds on a running state is replayed behind a CircuitBreaker in the same rolled-back transaction (so a lost check_stopped cannot hide behind another error); resume arguments both equal to and different from the current totals.",
+    },
 }
